@@ -1,9 +1,110 @@
+import TartModel.Proofs.InputLemmas
 import TartModel.Impl.Exec
+/-
+  C05 — field and directive arguments reach resolvers spec-coerced; literal = variable.
+  Theorems about Impl/Input.lean `coerceArgument(s)` / `coerceLiteral`.  `typed_delivery` is
+  PARTIAL on the unchanged code (known finding KF-C05-1): a variable nested inside a list / object
+  literal is delivered without any check against the type of its position — the machine-checked
+  counter-example is `nested_variable_untyped_witness` below; the theorem is proved for literals
+  that contain no variables and for arguments whose value IS a variable.
+-/
 namespace Tart.C05
-open Tart
-theorem placeholder_mapSt_length {α β σ : Type} (f : α → σ → β × σ) (xs : List α) (s : σ) :
-    (mapSt f xs s).1.length = xs.length := by
-  induction xs generalizing s with
-  | nil => rfl
-  | cons a as ih => simp [mapSt, ih]
+open Tart Tart.Spec
+
+/-! ### the null / absent / default table of `argument_coercer` -/
+
+/-- omitted argument with a schema default: the default literal is coerced and delivered -/
+theorem omitted_uses_default (fuel : Nat) (S : Schema) (o : Oracle) (ad : ArgDef) (l : Loc) (vars : Vars)
+    (d : Value) (hd : ad.default = some d) :
+    coerceArgument fuel S o ad l none vars =
+      (match coerceLiteral fuel S o (some vars) false ad.type d with
+       | none => .error "invalid-value" l
+       | some v => .value v) := by
+  cases hl : coerceLiteral fuel S o (some vars) false ad.type d <;> simp [coerceArgument, hd, hl]
+
+/-- omitted, no default, nullable: the argument is ABSENT from the dictionary (not null) -/
+theorem omitted_nullable_absent (fuel : Nat) (S : Schema) (o : Oracle) (ad : ArgDef) (l : Loc) (vars : Vars)
+    (hd : ad.default = none) (hnn : ad.type.isNonNull = false) :
+    coerceArgument fuel S o ad l none vars = .absent := by
+  simp [coerceArgument, hd, hnn]
+
+/-- omitted, no default, non-null: that field fails -/
+theorem omitted_required_fails (fuel : Nat) (S : Schema) (o : Oracle) (ad : ArgDef) (l : Loc) (vars : Vars)
+    (hd : ad.default = none) (hnn : ad.type.isNonNull = true) :
+    coerceArgument fuel S o ad l none vars = .error "missing-required" l := by
+  simp [coerceArgument, hd, hnn]
+
+/-- explicit `null` literal: kept as None for a nullable argument (distinct from absent, default NOT used) -/
+theorem explicit_null_nullable (fuel : Nat) (S : Schema) (o : Oracle) (ad : ArgDef) (l vl : Loc) (vars : Vars) (n : String)
+    (hnn : ad.type.isNonNull = false) :
+    coerceArgument fuel S o ad l (some ⟨n, .null, vl⟩) vars = .value .none := by
+  simp [coerceArgument, hnn]
+
+/-- explicit `null` literal for a non-null argument: that field fails -/
+theorem explicit_null_required_fails (fuel : Nat) (S : Schema) (o : Oracle) (ad : ArgDef) (l vl : Loc) (vars : Vars) (n : String)
+    (hnn : ad.type.isNonNull = true) :
+    coerceArgument fuel S o ad l (some ⟨n, .null, vl⟩) vars = .error "null-for-non-null" vl := by
+  simp [coerceArgument, hnn]
+
+/-- variable with a runtime value: that (already coerced) value is delivered as is -/
+theorem variable_contributes_runtime_value (fuel : Nat) (S : Schema) (o : Oracle) (ad : ArgDef) (l vl : Loc) (vars : Vars)
+    (n x : String) (v : PyVal) (hv : lookupKV x vars = some v) (hne : v ≠ .none) (hu : v ≠ .undef) :
+    coerceArgument fuel S o ad l (some ⟨n, .var x, vl⟩) vars = .value v := by
+  have hvars : vars.isEmpty = false := by cases vars <;> simp_all [lookupKV]
+  cases v <;> simp_all [coerceArgument]
+
+/-- variable without runtime value: default if any, else absent (nullable) or a field failure (non-null) -/
+theorem variable_without_value (fuel : Nat) (S : Schema) (o : Oracle) (ad : ArgDef) (l vl : Loc) (vars : Vars)
+    (n x : String) (hv : lookupKV x vars = none) :
+    coerceArgument fuel S o ad l (some ⟨n, .var x, vl⟩) vars =
+      (match ad.default with
+       | some d => (match coerceLiteral fuel S o (some vars) false ad.type d with
+                    | none => .error "invalid-value" vl | some v => .value v)
+       | none => if ad.type.isNonNull then .error "variable-without-value" vl else .absent) := by
+  cases hd : ad.default with
+  | none => by_cases hnn : ad.type.isNonNull = true <;> simp [coerceArgument, hv, hd, hnn]
+  | some d =>
+    cases hl : coerceLiteral fuel S o (some vars) false ad.type d <;>
+      by_cases hnn : ad.type.isNonNull = true <;> simp [coerceArgument, hv, hd, hnn, hl]
+
+/-- a variable carrying explicit null: None for a nullable argument, a field failure for a non-null one -/
+theorem variable_null (fuel : Nat) (S : Schema) (o : Oracle) (ad : ArgDef) (l vl : Loc) (vars : Vars)
+    (n x : String) (hv : lookupKV x vars = some .none) :
+    coerceArgument fuel S o ad l (some ⟨n, .var x, vl⟩) vars =
+      (if ad.type.isNonNull then .error "null-for-non-null" vl else .value .none) := by
+  have hvars : vars.isEmpty = false := by cases vars <;> simp_all [lookupKV]
+  by_cases hnn : ad.type.isNonNull = true <;> simp [coerceArgument, hv, hvars, hnn]
+
+/-- an argument failure is an error of THAT field only: `coerce_arguments` raises, nothing is delivered -/
+theorem argument_failure_fails_field (fuel : Nat) (ctx : Ctx) (tn : String) (fd : FieldDef) (parent : PyVal)
+    (nodes : List Selection) (p : List PathSeg) (st : St) (errs : List (String × Loc))
+    (h : coerceArguments fuel ctx.S ctx.o fd.args nodes.head!.floc nodes.head!.fargs ctx.vars = .error errs) :
+    resolveValue fuel ctx tn fd parent nodes p st = (.error (argErrors errs), st) := by
+  simp [resolveValue, h]
+
+/-! ### typed delivery -/
+
+/-- a literal written without variables (also: every schema default, every variable default) is
+    delivered as a coerced value of the declared type, whatever the variables are -/
+theorem const_literal_typed (n : Nat) (S : Schema) (o : Oracle) (flag : Bool) (ty : TypeRef) (node : Value) (v : PyVal)
+    (h : coerceLiteral n S o none flag ty node = some v) : HasType S ty v :=
+  (coerceLiteral_const_typed n S o flag ty node v h).1
+
+/-- KNOWN FINDING KF-C05-1, machine-checked: with `$s = "notint"`, the literal `[$s]` at an `[Int]`
+    position coerces to `["notint"]`, which is NOT a value of type `[Int]`. -/
+def Sw : Schema := ⟨[.scalar "Int", .scalar "String"], "Query", none, none⟩
+def ow : Oracle := ⟨fun _ => none⟩
+theorem nested_variable_untyped_witness :
+    coerceLiteral 5 Sw ow (some [("s", .str "notint")]) false (.list (.named "Int")) (.list [.var "s"])
+      = some (.list [.str "notint"]) ∧
+    ¬ HasType Sw (.list (.named "Int")) (.list [.str "notint"]) := by
+  refine ⟨by rfl, ?_⟩
+  intro h
+  cases h with
+  | list hl =>
+    have := hl (.str "notint") (by simp)
+    cases this with
+    | scalar hft hleaf => simp [InLeafOK] at hleaf
+    | enum hft _ => simp [Sw, Schema.findType] at hft
+
 end Tart.C05
